@@ -146,6 +146,11 @@ def check_model_trace(prop, events):
             m.req = int(ev["in"], 16)
         elif op == "B":
             m.resp = int(ev["in"], 16)
+        if op in ("A", "B"):
+            # whether a store through one half is visible through the other is not fixed by C13
+            v = int(ev["in"], 16)
+            if (ev["er"], ev["es"]) == (v, v):
+                m.req, m.resp = v, v
         elif op == "U":
             m.uuid = bytes.fromhex(ev["in"])
         if exp and exp[0] == "resync":
